@@ -546,6 +546,106 @@ fn fixed_probe(base: &Path, schema: &str, op: &str, format: &str, faulty_file: &
     Ok(())
 }
 
+/// Projects whose globs go through a symbolic link to a directory that lives elsewhere (`documents: lnk/../ops/*.graphql`
+/// with `lnk -> ../elsewhere/sub`: the operating system resolves `lnk/..` to `elsewhere`, not to the project). Every
+/// located diagnostic must name a file that exists, and the faulty file (by its real location) must be named.
+fn symlink_case(case: &mut Case, base: &Path) -> CaseResult {
+    let format = *case.ch.pick(&["json", "rdjson", "human"]);
+    let in_schema = case.ch.chance(1, 3);
+    let proj = Project::new(base);
+    let root = proj.path("app");
+    let elsewhere = proj.path("elsewhere");
+    std::fs::create_dir_all(root.clone()).unwrap();
+    std::fs::create_dir_all(elsewhere.join("sub")).unwrap();
+    std::fs::create_dir_all(elsewhere.join("ops")).unwrap();
+    std::fs::create_dir_all(elsewhere.join("schema")).unwrap();
+    // app/lnk -> ../elsewhere/sub, so that app/lnk/.. is elsewhere/
+    if std::os::unix::fs::symlink("../elsewhere/sub", root.join("lnk")).is_err() {
+        proj.remove();
+        case.discard("symbolic links unavailable");
+        return Ok(());
+    }
+    // a decoy with the lexically normalised paths: files that are NOT inputs
+    if case.ch.flip() {
+        proj.write("app/ops/q1.graphql", "query Decoy { a }\n");
+        proj.write("app/schema/s.graphqls", "type Query { a: Int }\n");
+        case.label("decoy-at-lexical-path");
+    }
+    proj.write("app/graphql.config.yaml", "schema: \"lnk/../schema/*.graphqls\"\ndocuments: \"lnk/../ops/*.graphql\"\n");
+    let fault = case.ch.below(3);
+    let schema = if in_schema { "type Query { a: Int b: NoSuchType }\n" } else { "type Query { a: Int }\n" };
+    let q1 = if in_schema {
+        "query Q1 { a }\n"
+    } else {
+        match fault {
+            0 => "query Q1 { a nope }\n",
+            1 => "query Q1 { a ...NoSuchFragment }\n",
+            _ => "query Q1 { a\n",
+        }
+    };
+    proj.write("elsewhere/schema/s.graphqls", schema);
+    proj.write("elsewhere/ops/q1.graphql", q1);
+    proj.write("elsewhere/ops/q2.graphql", "query Q2 { a }\n");
+    let run = run_cli(&root, &["check", "--output-format", format]);
+    let detail = json!({"layout": "app/lnk -> ../elsewhere/sub; globs lnk/../schema/*.graphqls and lnk/../ops/*.graphql", "schema": schema, "q1": q1, "format": format,
+        "status": run.status, "stdout": run.stdout, "stderr": strip_ansi(&run.stderr)});
+    let faulty = std::fs::canonicalize(proj.path(if in_schema { "elsewhere/schema/s.graphqls" } else { "elsewhere/ops/q1.graphql" })).unwrap();
+    let res = (|| -> CaseResult {
+        if run.crashed() {
+            return Err(Failure::new("cli-crashed", "crash", detail.clone()));
+        }
+        if run.status != Some(1) {
+            return Err(Failure::new("zero-exit-on-faulty-project", format!("exit {:?} (are the files behind the link read at all?)", run.status), detail.clone()));
+        }
+        // paths exactly as printed (no lexical normalisation: that is the point here)
+        let raw_paths = |text: &str| -> Vec<String> {
+            text.split(|c: char| c.is_whitespace())
+                .filter(|w| w.starts_with('/'))
+                .filter_map(|w| {
+                    let parts: Vec<&str> = w.rsplitn(3, ':').collect();
+                    (parts.len() == 3 && parts[0].parse::<i64>().is_ok() && parts[1].parse::<i64>().is_ok()).then(|| parts[2].to_string())
+                })
+                .collect()
+        };
+        let mut paths: Vec<String> = raw_paths(&strip_ansi(&run.stderr));
+        if format != "human" {
+            let v: Value = run.json().map_err(|e| Failure::new("stdout-not-one-json-document", e, detail.clone()))?;
+            if let Some(m) = v["error"]["message"].as_str() {
+                paths.extend(raw_paths(&strip_ansi(m)));
+            }
+            for e in v["check"]["errors"].as_array().cloned().unwrap_or_default() {
+                if let Some(p) = e["file"]["path"].as_str() {
+                    paths.push(p.to_string());
+                }
+            }
+            for d in v["diagnostics"].as_array().cloned().unwrap_or_default() {
+                if let Some(p) = d["location"]["path"].as_str() {
+                    paths.push(p.to_string());
+                }
+            }
+        }
+        let mut named = false;
+        for p in &paths {
+            // as the operating system understands the path (symbolic links followed), not lexically
+            match std::fs::canonicalize(p) {
+                Ok(c) => named |= c == faulty,
+                Err(_) => return Err(Failure::new("diagnostic-names-missing-file", format!("a diagnostic names {p}, which does not exist"), detail.clone())),
+            }
+        }
+        if !named && !(format == "rdjson" && fault == 2 && !in_schema) {
+            return Err(Failure::new("offending-file-not-named", format!("no diagnostic names {} (named: {paths:?})", faulty.display()), detail.clone()));
+        }
+        Ok(())
+    })();
+    proj.remove();
+    res?;
+    case.evals(1);
+    case.label(format);
+    case.nontrivial(&(format, in_schema, fault));
+    case.sample(|| json!({"format": format, "fault_in_schema": in_schema}));
+    Ok(())
+}
+
 pub fn run(env: &Env) -> i32 {
     let mut rep = Report::new(
         env,
@@ -566,6 +666,9 @@ pub fn run(env: &Env) -> i32 {
         rep.probe("C18-eof-syntax-error-unlocated", move || fixed_probe(&b, "type Query { a: Int }\n", "query Q { a\n", "json", "q.graphql"));
     }
     rep.campaign("runs", env.cases(4_000, 100_000), (600, 2500), move |case| case_fn(case, &b2));
+    rep.note("campaign symlinked-globs: the schema and documents globs go through a symbolic link to a directory elsewhere (`lnk/../ops/*.graphql`), where the operating system's and the lexical reading of `..` differ; every path a diagnostic names must exist and the faulty file must be named (compared after following links)");
+    let b3 = base.clone();
+    rep.campaign("symlinked-globs", env.cases(60, 600), (20, 100), move |case| symlink_case(case, &b3));
     let _ = std::fs::remove_dir_all(&base);
     rep.finish()
 }
